@@ -59,6 +59,10 @@ CallOK(L, nIn, kind, i) ==
              nIn - 2 * j - 2 >= 0 /\ nIn - 2 * j + 2 <= L + 1
        /\ DoesCap(kind) => ShiftOK(L, Capped(L, MidN(nIn, kind, i), kind), nIn \div 2, nIn)
 
+\* the table size an object reports for a requested limexp ("the maximum number of elements the epsilon table can contain"):
+\* the next odd number, never less than what was asked for
+TableSize(req) == 2 * (req \div 2) + 1
+ASSUME \A r \in 3..61 : TableSize(r) >= r /\ TableSize(r) % 2 = 1 /\ TableSize(r) <= r + 1
 Init == limexp \in LimExps /\ n = 0 /\ nres = 0 /\ ok = TRUE /\ last = <<"init", 0>>
 
 Call(kind, i) ==
